@@ -3,6 +3,7 @@ import PikaVerif.Lemmas.ElasticT
 import PikaVerif.Lemmas.ElasticFin
 import PikaVerif.Lemmas.ElasticFin2
 import PikaVerif.Lemmas.ElasticCount
+import PikaVerif.Lemmas.ElasticStart
 /-!
 # C19t — termination of suspend / resume (follow-up of C19)
 
@@ -60,6 +61,16 @@ inside `wait` un-notified.  `C19t_maximalR_exists` (same bound), `C19t_work_exec
 suspended worker is executed by the other workers), `C19t_resume_returned` (a worker with a pending
 resume call is not `sleeping` in a maximal state: the resume loop's exit test succeeds, the worker is
 back in its loop and — low-priority queue empty — `running` with its own queue taken).
+
+**Counters.**  `C19t_counters`: placements = takes + queued, per worker and for the low-priority
+queue, after every accepted log; `C19t_all_taken_or_awaiting_resume`: in the final state of a
+maximal run every placement on a worker in its loop was taken exactly once, what is left sits on a
+sleeping worker and was placed unguarded.  `C19t_resumed_takes_work`: after its wake-up a worker
+takes queued work within 4 of its own steps.
+
+**Second false statement.**  "The state word of every worker agrees with the last call aimed at it"
+is false for the code as it is: `wait(l)` without predicate — a spurious wake-up un-suspends the
+worker (`C19t_spurious_wakeup_unsuspends`, `decide`-checked).
 -/
 namespace PikaVerif.C19t
 open PikaVerif PikaVerif.Elastic PikaVerif.C19
@@ -474,6 +485,40 @@ theorem C19t_all_taken_or_awaiting_resume (cfg : Cfg) (N : Nat) (log : List Ev) 
       cases hd : (s.wk w).dirty with
       | true => exact Or.inl rfl
       | false => exact Or.inr (hi.strand (Or.inr hnl) hd)
+
+/-- **A worker whose thread has not started is untouched** (the hypothesis `actor ≠ none` of
+    `C19t_calls_returned` excludes only such workers): its state word is still `initialized`, it is
+    not on the sleep path, nobody waits for it — a suspend call aimed at it returns at once, a resume
+    call reads a state `≠ sleeping`. -/
+theorem C19t_unstarted_untouched (cfg : Cfg) (s : St) (hr : Reachable cfg s) (w : Nat)
+    (hs : (s.wk w).actor = none) :
+    (s.wk w).st = rsInit ∧ (s.wk w).pc = .loop ∧ (s.wk w).waiters = [] ∧
+    (∀ b v, (step s (.sdone b w v)).isSome = true) ∧ (∀ b, step s (.rload b w rsInit) = some s) := by
+  obtain ⟨log, hl⟩ := hr
+  obtain ⟨h1, h2, h3⟩ := invU_of_accepted hl w hs
+  refine ⟨h1, h2, h3, ?_, ?_⟩
+  · intro b v; simp [step, h3]
+  · intro b; simp [step, h1]
+
+/-- a completed PU suspend followed by a wake-up WITHOUT any notify -/
+def spuriousLog : List Ev :=
+  [.start 1 0 0, .slock 9 0, .cas 9 0 rsRunning rsPreSleep, .sunl 9 0, .top 0 rsPreSleep, .qlen 1 0 0,
+   .chk 0 rsPreSleep true, .sleep 0, .sdone 9 0 rsSleeping, .wait 0, .woke 0, .wake 0 rsSleeping rsRunning]
+
+/-- **"In the final state every worker's state word agrees with the last call aimed at it" is false**
+    for the code as it is: `scheduler_base::suspend` calls `wait(l)` without a predicate, so a spurious
+    wake-up of the condition variable (allowed by the standard, accepted by the model as `woke`
+    without a preceding `notify`) makes the worker CAS itself back to `running` although no resume
+    call was ever issued.  The history is accepted, contains no `notify`, ends in a maximal state, and
+    the worker that was suspended last is `running`.  What does hold: the state word agrees with where
+    the worker thread IS (`C19t_calls_returned`: `sleeping` iff inside `wait`), no request is left
+    pending, and a worker with a pending resume call is not asleep (`C19t_resume_returned`). -/
+theorem C19t_spurious_wakeup_unsuspends :
+    (runLog step (init cfg2) spuriousLog).isSome = true ∧
+    spuriousLog.all (fun e => match e with | .notify _ _ => false | _ => true) = true ∧
+    Maximal 10 ((runLog step (init cfg2) spuriousLog).getD (init cfg2)) ∧
+    (((runLog step (init cfg2) spuriousLog).getD (init cfg2)).wk 0).st = rsRunning := by
+  refine ⟨by decide, by decide, by decide, by decide⟩
 
 /-- the finding `lowprio-last-worker` as a history: worker 1 is the last worker; a low-priority task
     is staged; actor 9 asks worker 1 to sleep -/
